@@ -138,4 +138,40 @@ theorem C15_cex_all_empty_entries_removed :
     keep ∉ (purgeCleanup .allEmpty ⟨[keep, gone]⟩ "old").apps ∧ keep ∈ (purgeCleanup .own ⟨[keep, gone]⟩ "old").apps := by
   decide
 
+/-! ## which stored apps count as deleted (what a purge may take) -/
+
+/-- `ProjectSignature.diff`: a stored app is deleted when the current signature has no counterpart for its id -
+looked up with `get_app_sig` (by id, else by legacy label) -/
+def deletedApps (stored current : ProjectSig) : List String :=
+  (stored.apps.filter (fun a => (current.getApp a.id).isNone)).map (·.id)
+
+/-- **an installed app that was given a new label is not stale**: if some current app carries the stored id as its
+legacy label (or as its id), the stored app is not among the deleted ones, whatever else the project contains -/
+theorem C15_relabelled_app_not_deleted (stored current : ProjectSig) (a b : AppSig) (hb : b ∈ current.apps)
+    (hl : b.legacy = a.id ∨ b.id = a.id) : a.id ∉ deletedApps stored current := by
+  have hsome : (current.getApp a.id).isSome = true := by
+    unfold ProjectSig.getApp
+    cases hf : current.apps.find? (fun x => x.id == a.id) with
+    | some x => rfl
+    | none =>
+      rcases hl with hl | hl
+      · cases hg : current.apps.find? (fun x => x.legacy == a.id) with
+        | some y => simp [hf]
+        | none =>
+          have := List.find?_eq_none.mp hg b hb
+          simp [hl] at this
+      · have := List.find?_eq_none.mp hf b hb
+        simp [hl] at this
+  intro hmem
+  unfold deletedApps at hmem
+  simp only [List.mem_map, List.mem_filter] at hmem
+  obtain ⟨c, ⟨_, hnone⟩, hid⟩ := hmem
+  rw [hid] at hnone
+  have hn : current.getApp a.id = none := by simpa using hnone
+  rw [hn] at hsome
+  exact absurd hsome (by simp)
+
+/-- the source uses that lookup (read by the translator on every run) -/
+theorem C15_source_deleted_lookup : DEvo.Generated.deletedAppsLookup = "get_app_sig" := by decide
+
 end DEvo.Props.C15
